@@ -408,10 +408,10 @@ def _multistage_stream(n, ram, disk, traj):
     return out, sched
 
 
-def h_split(ctx, n):
+def h_split(ctx, n, s_list=None):
     """All splits (a, s-a) of s units, same n and trajectory, inside one path."""
     silence_repo_output()
-    s = ctx.int("s", 1, n + 1, eager=True)
+    s = ctx.choice("s_i", list(s_list)) if s_list else ctx.int("s", 1, n + 1, eager=True)
     traj = ctx.choice("trajectory", ["maximum", "revolve"])
     streams = {}
     for a in range(0, s + 1):
@@ -722,3 +722,84 @@ def h_xh(ctx, fn, args):
         ok = False
     tag = [t for t in ("C05", "C10", "C13", "C17", "C18") if ctx.is_fatal(t + ".crosshair")]
     ctx.require(bool(ok), (tag[0] if tag else "X") + ".crosshair", {"function": fn, "args": args})
+
+
+# ---------------------------------------------------------------------------
+# C07 / C05: the cost tables themselves against the oracle, at large l (cheap)
+
+def h_tables(ctx, kind, lmax, mmax, vectors=None):
+    """kind 'opt0': get_opt_0_table with SYMBOLIC uf, ub (decisions are implied by uf > 0: one
+    path) against oracles.CostTables.opt0 and, through uf=1, ub=0, against the binomial closed
+    form;  kinds 'optinf' / 'hopt': concrete cost vectors (solver-enumerated choice)."""
+    from fractions import Fraction
+    from .symx import ExactQ
+    from checkpoint_schedules.hrevolve_sequences.revolve import get_opt_0_table
+    from checkpoint_schedules.hrevolve_sequences.disk_revolve import get_opt_inf_table
+    from checkpoint_schedules.hrevolve_sequences.hrevolve import get_hopt_table
+    if kind == "opt0":
+        uf = ctx.real("uf", 0, strict=True)
+        ub = ctx.real("ub", 0, strict=True)
+        try:
+            tab = get_opt_0_table(lmax, mmax, uf, ub)
+        except PathAbort:
+            raise
+        except Exception as e:                              # noqa: BLE001
+            ctx.fail("C07.table_raises", {"exc": repr(e)})
+        T = oracles.CostTables(uf, ub)
+        bad = None
+        for m in range(1, mmax + 1):
+            for l in range(0, lmax + 1):
+                got = tab[m][l]
+                # closed form of the optimum: (l+1)*ub + E_bin(l+1, min(m, l))*uf
+                exp = (l + 1) * ub + (oracles.E_bin(l + 1, min(m, l)) if l >= 1 else 0) * uf
+                if not bool(got == exp):
+                    bad = (m, l, got, exp)
+                    break
+            if bad:
+                break
+        ctx.trace(("opt0", lmax, mmax, bad is None))
+        ctx.require(bad is None, "C07.table",
+                    lambda: {"table": "get_opt_0_table", "slots": bad[0], "l": bad[1], "entry": bad[2],
+                             "optimum": bad[3]}, soft=True)
+        ctx.require(bad is None, "C05.table",
+                    lambda: {"table": "get_opt_0_table", "slots": bad[0], "l": bad[1], "entry": bad[2],
+                             "optimum": bad[3]}, soft=True)
+        ctx.cover("__nontrivial__")
+        return
+    vec = ctx.choice("cost_i", [tuple(v) for v in vectors])
+    uf, ub, wd, rd = (ExactQ(Fraction(x)) for x in vec)
+    T = oracles.CostTables(uf, ub, wd, rd)
+    bad = None
+    try:
+        if kind == "optinf":
+            for cm in range(1, mmax + 1):
+                tab = get_opt_inf_table(lmax, cm, uf, ub, rd, wd, True)
+                for l in range(0, lmax + 1):
+                    if not bool(tab[l] == T.optinf(l, cm)):
+                        bad = ("get_opt_inf_table", cm, l, tab[l], T.optinf(l, cm))
+                        break
+                if bad:
+                    break
+        else:
+            c0, c1 = mmax
+            optp, opt = get_hopt_table(lmax, (c0, c1), (0, wd), (0, rd), ub, uf)
+            for l in range(0, lmax + 1):
+                for m in range(1, c0 + 1):
+                    if not bool(opt[0][l][m] == T.hopt(0, l, m, c0)):
+                        bad = ("hopt level 0", m, l, opt[0][l][m], T.hopt(0, l, m, c0))
+                for m in range(0, c1 + 1):
+                    if not bool(opt[1][l][m] == T.hopt(1, l, m, c0)):
+                        bad = ("hopt level 1", m, l, opt[1][l][m], T.hopt(1, l, m, c0))
+                    if m >= 1 and l >= 1 and not bool(optp[1][l][m] == T.hoptp(1, l, m, c0)):
+                        bad = ("hoptp level 1", m, l, optp[1][l][m], T.hoptp(1, l, m, c0))
+                if bad:
+                    break
+    except PathAbort:
+        raise
+    except Exception as e:                                  # noqa: BLE001
+        ctx.fail("C07.table_raises", {"exc": repr(e), "kind": kind})
+    ctx.trace((kind, lmax, bad is None))
+    ctx.require(bad is None, "C07.table",
+                lambda: {"table": bad[0], "slots": bad[1], "l": bad[2], "entry": bad[3], "optimum": bad[4],
+                         "costs": vec})
+    ctx.cover("__nontrivial__")
